@@ -1,44 +1,11 @@
 // C03 - AES-XTS equals IEEE 1619 incl. ciphertext stealing; expanded-key forms agree; len < 16 touches nothing.
 #include "../common/aes_engine.hpp"
 
-typedef void (*xts_fn)(uint8_t *k2, uint8_t *k1, uint8_t *tw, uint64_t n, const uint8_t *in, uint8_t *out);
-typedef int (*xts_ifn)(const uint8_t *k2, const uint8_t *k1, const uint8_t *tw, uint64_t n, const void *in, void *out);
-
-struct XtsFam {
-        std::string fam; // sse | avx | vaes | legacy | isal
-        int bits;
-        bool api = false;
-        void *fn[2][2]; // [dec][expanded]
-        bool runnable = true;
-        std::string label() const { return "xts" + std::to_string(bits) + "/" + fam; }
-};
+using ae::xts_fn;
+using ae::xts_ifn;
+using ae::XtsFam;
 static std::vector<XtsFam> g_fams;
-
-static std::vector<XtsFam> xts_families()
-{
-        std::vector<XtsFam> v;
-        for (int bits : { 128, 256 }) {
-                std::string b = std::to_string(bits);
-                for (const char *f : { "sse", "avx", "vaes", "legacy", "isal" }) {
-                        XtsFam x;
-                        x.fam = f;
-                        x.bits = bits;
-                        x.api = x.fam == "isal";
-                        for (int d = 0; d < 2; d++)
-                                for (int e = 0; e < 2; e++) {
-                                        std::string ed = d ? "dec" : "enc", n;
-                                        if (x.fam == "isal") n = "isal_aes_xts_" + ed + "_" + b + (e ? "_expanded_key" : "");
-                                        else if (x.fam == "legacy") n = "XTS_AES_" + b + "_" + ed + (e ? "_expanded_key" : "");
-                                        else n = "_XTS_AES_" + b + "_" + ed + (e ? "_expanded_key" : "") + "_" + f;
-                                        x.fn[d][e] = isal::sym(n);
-                                }
-                        if (!x.fn[0][0] && !x.fn[0][1] && !x.fn[1][0] && !x.fn[1][1]) continue;
-                        x.runnable = (x.fam == "legacy" || x.fam == "isal") ? isal::cpu().aesni : (isal::host_can_run(f) && isal::cpu().aesni);
-                        v.push_back(x);
-                }
-        }
-        return v;
-}
+using ae::xts_families;
 
 struct Case {
         std::string fam;
